@@ -29,7 +29,7 @@ Accepted subset (anything else raises TranslateError with file:line):
               dict;  if / elif / else;  for x in <file> / <list> / <str> with break,
               continue, else;  while <pure test>;  try / except C [as n] (no else /
               finally), nested;  with codecs.open(name, 'r', encoding=e
-              [, errors='surrogateescape']) as f (two different oracles) / with open(name, 'r') as f;  f.seek(0)
+              [, errors=<constant>]) as f (the errors argument is passed to the oracle) / with open(name, 'r') as f;  f.seek(0)
               (inside a loop over f only directly before `break`);  x.encode(e) as a
               statement;  return e;  print(..., file=sys.stderr) (dropped: stderr is
               not modelled; its arguments must only mention bound names);  docstrings,
@@ -1440,14 +1440,14 @@ class FunctionTranslator:
             if not (len(c.args) == 2 and isinstance(c.args[1], ast.Constant) and c.args[1].value == "r"
                     and (set(kw) == {"encoding"} or
                          (set(kw) == {"encoding", "errors"} and isinstance(kw["errors"], ast.Constant)
-                          and kw["errors"].value == "surrogateescape"))):
-                self.fail(s, "codecs.open is supported as codecs.open(name, 'r', encoding=e[, errors='surrogateescape']) only")
-            oracle = "codecs_open" if "errors" in kw else "codecs_open_strict"
+                          and type(kw["errors"].value) is str))):
+                self.fail(s, "codecs.open is supported as codecs.open(name, 'r', encoding=e[, errors=<constant>]) only")
+            errors = "(Some %s)" % _paren(cstr(kw["errors"].value)) if "errors" in kw else "None"
             s1, a, ta = self.expr(c.args[0], env)
             s2, b, tb = self.expr(kw["encoding"], env)
             if not (unify(ta, STR) and unify(tb, STR)):
                 self.fail(s, "codecs.open of %s, %s" % (resolve(ta), resolve(tb)))
-            steps, call = s1 + s2, "rt_open (%s %s %s)" % (self.use(oracle), _paren(a), _paren(b))
+            steps, call = s1 + s2, "rt_open (%s %s %s %s)" % (self.use("codecs_open"), _paren(a), _paren(b), errors)
         elif self.is_global(c.func, "open"):
             if not (len(c.args) == 2 and isinstance(c.args[1], ast.Constant) and c.args[1].value == "r" and not c.keywords):
                 self.fail(s, "open is supported as open(name, 'r') only")
@@ -1532,10 +1532,8 @@ CONTEXT = [
     ("pint", "(pint : pstr -> option Z)", "int(text); None = ValueError"),
     ("enc_err", "(enc_err : pstr -> pstr -> option pstr)",
      "enc_err encoding line: None when line.encode(encoding) succeeds, Some reason when it raises UnicodeEncodeError"),
-    ("codecs_open", "(codecs_open : pstr -> pstr -> option (list pstr))",
-     "codecs.open(name, 'r', encoding=e, errors='surrogateescape'): the lines the iteration yields; None = IOError"),
-    ("codecs_open_strict", "(codecs_open_strict : pstr -> pstr -> option (list pstr))",
-     "codecs.open(name, 'r', encoding=e): strict decoding; None = IOError (or a decoding error)"),
+    ("codecs_open", "(codecs_open : pstr -> pstr -> option pstr -> option (list pstr))",
+     "codecs.open(name, 'r', encoding=e[, errors=x]) (third argument: Some x / None): the lines the iteration yields; None = IOError"),
     ("builtin_open", "(builtin_open : pstr -> option (list pstr))", "open(name, 'r'): the lines; None = IOError"),
     ("path_join", "(path_join : list pstr -> pstr)", "os.path.join"),
 ]
